@@ -1,4 +1,4 @@
-import ExprModel.Proofs.LexPos
+import ExprModel.Proofs.LexLoop
 import ExprModel.Proofs.LexNumber
 /-
 An integer spelling (decimal digits with `_`, or `0x`/`0X` + hexadecimal digits with `_`) alone in the source
